@@ -117,10 +117,29 @@ Ltac finish :=
        | Hn : ~ In ?b ?vs, Hi : In ?z ?vs |- _ => apply Hn; replace b with z by lia; exact Hi
        end).
 
-(* vmin / vmax as filter_out_stats passes them: None, a scalar, a length-1 ndarray *)
-Ltac bound_shapes Hlo Hhi :=
+(* vmin / vmax as filter_out_stats passes them: None, a scalar, a length-1 ndarray.  The array shapes
+   are reduced to the scalar ones by conversion (whatever the code does to unwrap them, the decision
+   on `PArr [m]` must be convertible to the decision on `m`; if it is not, the change fails and the
+   goal stays open). *)
+Ltac unwrap_arrays H :=
+  repeat match type of H with
+  | ok_true (?f ?o ?c (PArr [?m]) ?hi) = true => change (ok_true (f o c m hi) = true) in H
+  | ok_true (?f ?o ?c ?lo (PArr [?m])) = true => change (ok_true (f o c lo m) = true) in H
+  end.
+
+Definition lo_core (vmin : pv) (z : Z) : Prop := vmin = PNone \/ exists m, vmin = PInt m /\ m <= z.
+Definition hi_core (vmax : pv) (z : Z) : Prop := vmax = PNone \/ exists m, vmax = PInt m /\ z <= m.
+
+Ltac core_shapes Hlo Hhi :=
   let a := fresh "a" in let b := fresh "b" in let La := fresh "La" in let Lb := fresh "Lb" in
-  destruct Hlo as [->|[a [[->| ->] La]]]; destruct Hhi as [->|[b [[->| ->] Lb]]].
+  destruct Hlo as [->|[a [-> La]]]; destruct Hhi as [->|[b [-> Lb]]].
+
+(* from the statement over the scalar shapes (core) to the statement over all shapes *)
+Ltac lift_core core Hlo Hhi H :=
+  let a := fresh "a" in let b := fresh "b" in let La := fresh "La" in let Lb := fresh "Lb" in
+  destruct Hlo as [->|[a [[->| ->] La]]]; destruct Hhi as [->|[b [[->| ->] Lb]]];
+  unwrap_arrays H;
+  (eapply core; [| |exact H]; first [left; reflexivity | right; eexists; split; [reflexivity|eassumption]]).
 
 (* integer cell: H is the "skip" decision, the goal is sat ... = false *)
 Ltac leaf_scalar_int H :=
